@@ -800,3 +800,176 @@ for nb_ in _TW:
              [SELF, ("high", sym("high")), ("low", sym("low")), ("num_bits", (lambda nb_=nb_: nb_))], c_assert_canonical_truncation(nb_),
              consts=dict(CONSTS), trace_only=True, tracked=("self",))
     u.extra_contracts = TRUNC_CON
+
+
+# ------------------------------------------------------------------ base gadgets of composer.rs / select.rs / bits.rs (C08): second opinion
+CB = "src/composer.rs"
+SL = "src/composer/select.rs"
+BT = "src/composer/bits.rs"
+M1 = P(0) - 1
+
+
+def c_arith(it, recv, a):
+    d = dict(a[0].fields)
+    d["sel"] = VOpaque("sel:arith")
+    return VStruct("Constraint", d)
+
+
+BASE_CON = {"Constraint::arithmetic": c_arith, ".into": lambda it, recv, a: recv,
+            "self.append_evaluated_output": lambda it, recv, a: (ev(it, "append_evaluated_output", a[0]), VOpaque("Some", [fresh_w(it)]))[1]}
+
+
+def u_base(name, file, fn, params, contract, **kw):
+    u = unit(name, file, fn, [SELF] + params, contract, consts=dict(CONSTS), **kw)
+    u.extra_contracts = dict(BASE_CON)
+    return u
+
+
+u_base("base.assert_equal", CB, "Composer::assert_equal", [("a", sym("a")), ("b", sym("b"))],
+       lambda it, recv, a: (ev(it, "append_gate", cons({"q_l": 1, "q_r": M1, "a": a[0], "b": a[1]})), UNIT)[1])
+u_base("base.assert_equal_constant[None]", CB, "Composer::assert_equal_constant", [("a", sym("a")), ("constant", sym("k")), ("public", lambda: VOpaque("None"))],
+       lambda it, recv, a: (ev(it, "append_gate", cons({"q_l": M1, "a": a[0], "q_c": a[1]})), UNIT)[1])
+u_base("base.assert_equal_constant[Some]", CB, "Composer::assert_equal_constant", [("a", sym("a")), ("constant", sym("k")), ("public", lambda: VOpaque("Some", [Sym("p")]))],
+       lambda it, recv, a: (ev(it, "append_gate", cons({"q_l": M1, "a": a[0], "q_c": a[1], "pi": Sym("p")})), UNIT)[1])
+
+
+def c_base_append_public(it, recv, a):
+    w = c_append_witness(it, None, [a[0]])
+    ev(it, "append_gate", cons({"q_l": M1, "a": w, "pi": a[0]}))
+    return w
+
+
+u_base("base.append_public", CB, "Composer::append_public", [("public", sym("p"))], c_base_append_public)
+
+
+def c_base_append_constant(it, recv, a):
+    w = c_append_witness(it, None, [a[0]])
+    ev(it, "assert_equal_constant", w, a[0], VOpaque("None"))
+    return w
+
+
+u_base("base.append_constant", CB, "Composer::append_constant", [("constant", sym("k"))], c_base_append_constant)
+
+
+def c_gate_addmul(it, recv, a):
+    """gate_add / gate_mul: the caller's constraint with the arithmetic selector on and q_O OVERRIDDEN to -1, evaluated and appended by
+    append_evaluated_output; the fresh output witness is returned"""
+    d = dict(a[0].fields)
+    d["sel"] = VOpaque("sel:arith")
+    d["q_o"] = M1
+    ev(it, "append_evaluated_output", VStruct("Constraint", d))
+    return fresh_w(it)
+
+
+SC = lambda: cons({"q_m": Sym("s.q_m"), "q_l": Sym("s.q_l"), "q_r": Sym("s.q_r"), "q_o": Sym("s.q_o"), "q_f": Sym("s.q_f"), "q_c": Sym("s.q_c"),
+                   "pi": Sym("s.pi"), "a": Sym("s.a"), "b": Sym("s.b"), "c": Sym("s.c"), "d": Sym("s.d")})
+u_base("base.gate_add", CB, "Composer::gate_add", [("s", SC)], c_gate_addmul)
+u_base("base.gate_mul", CB, "Composer::gate_mul", [("s", SC)], c_gate_addmul)
+u_base("base.append_gate", CB, "Composer::append_gate", [("constraint", SC)],
+       lambda it, recv, a: (ev(it, "append_custom_gate", c_arith(it, None, [a[0]])), UNIT)[1], trace_only=True, tracked=("self",))
+u_base("base.component_boolean", BT, "Composer::component_boolean", [("a", sym("a"))],
+       lambda it, recv, a: (ev(it, "append_gate", cons({"q_m": 1, "q_o": M1, "a": a[0], "b": a[0], "c": a[0], "d": ZERO})), UNIT)[1])
+
+
+def c_select_one(it, recv, a):
+    bit, v = a
+    fx = c_append_witness(it, None, [P(1) - P(val(bit)) + P(val(bit)) * P(val(v))])
+    ev(it, "append_gate", cons({"q_m": 1, "q_l": M1, "q_o": M1, "q_c": 1, "a": bit, "b": v, "c": fx}))
+    return fx
+
+
+u_base("base.component_select_one", SL, "Composer::component_select_one", [("bit", sym("bit")), ("value", sym("value"))], c_select_one)
+
+
+def c_select_zero(it, recv, a):
+    bit, v = a
+    ev(it, "gate_mul", cons({"q_m": 1, "a": bit, "b": v}))
+    return fresh_w(it)
+
+
+u_base("base.component_select_zero", SL, "Composer::component_select_zero", [("bit", sym("bit")), ("value", sym("value"))], c_select_zero)
+
+
+def c_select(it, recv, a):
+    bit, x, y = a
+    ev(it, "gate_mul", cons({"q_m": 1, "a": bit, "b": x}))
+    t1 = fresh_w(it)
+    ev(it, "gate_add", cons({"q_l": M1, "q_c": 1, "a": bit}))
+    t2 = fresh_w(it)
+    ev(it, "gate_mul", cons({"q_m": 1, "a": t2, "b": y}))
+    t3 = fresh_w(it)
+    ev(it, "gate_add", cons({"q_l": 1, "q_r": 1, "a": t3, "b": t1}))
+    return fresh_w(it)
+
+
+u_base("base.component_select", SL, "Composer::component_select", [("bit", sym("bit")), ("a", sym("a")), ("b", sym("b"))], c_select)
+
+
+# ---- append_evaluated_output: the three ways of solving for the output wire, and the q_O == 0 case
+SELF_ = {"Selector::Multiplication": "q_m", "Selector::Left": "q_l", "Selector::Right": "q_r", "Selector::Output": "q_o", "Selector::Fourth": "q_f",
+         "Selector::Constant": "q_c", "Selector::PublicInput": "pi"}
+WIRE_ = {"WiredWitness::A": "a", "WiredWitness::B": "b", "WiredWitness::C": "c", "WiredWitness::D": "d"}
+MINUS_ONE_LIMBS = [0xfffffffd00000003, 0xfb38ec08fffb13fc, 0x99ad88181ce5880f, 0x5bc8f5f97cd877d8]
+
+
+def c_raw_scalar(it, recv, a):
+    """BlsScalar([l0..l3]) is the Montgomery representation; the one literal used here is checked to be -1 by exact integer arithmetic
+    in the Verus unit (bigint obligation); R accepts exactly that literal"""
+    if isinstance(a[0], VArr) and list(a[0].items) == MINUS_ONE_LIMBS:
+        return M1
+    raise OutsideFragment("raw-limb scalar literal other than the known MINUS_ONE")
+
+
+def c_ct_invert(it, recv, a):
+    y = recv
+    if it.decide(VOpaque("eq", [y, 0])):
+        return VOpaque("None")
+    return VOpaque("Some", [Sym(f"inv({canon(P(y))})")])
+
+
+AEO = dict(BASE_CON)
+AEO.update({".witness": lambda it, recv, a: recv.fields[WIRE_[canon(a[0])]], ".coeff": lambda it, recv, a: recv.fields[SELF_[canon(a[0])]],
+            "BlsScalar": c_raw_scalar, ".invert": c_ct_invert})
+AEO.pop("self.append_evaluated_output")
+
+
+def c_append_evaluated_output(it, recv, a):
+    """x = q_M a b + q_L a + q_R b + q_F d + q_C + PI on the witness VALUES;  q_O == 1: c = -x;  q_O == -1: c = x;  other invertible q_O:
+    c = x * (-1/q_O);  q_O == 0: no output.  When there is an output it is appended as a witness and wired as C; in every case
+    exactly one arithmetic gate with the caller's selectors is appended; the output witness (or None) is returned."""
+    s = a[0]
+    f = s.fields
+    va, vb, vd = P(val(f["a"])), P(val(f["b"])), P(val(f["d"]))
+    x = P(f["q_m"]) * va * vb + P(f["q_l"]) * va + P(f["q_r"]) * vb + P(f["q_f"]) * vd + P(f["q_c"]) + P(f["pi"])
+    y = f["q_o"]
+    is1 = it.decided(canon(VOpaque("eq", [y, P(1)])))
+    if is1 is None:
+        raise OutsideFragment(f"append_evaluated_output: path does not decide q_O == 1 ({it.decided_keys})")
+    out = None
+    if is1:
+        out = P(0) - x
+    else:
+        ism1 = it.decided(canon(VOpaque("eq", [y, M1])))
+        if ism1 is None:
+            raise OutsideFragment("append_evaluated_output: path does not decide q_O == -1")
+        if ism1:
+            out = x
+        else:
+            z = it.decided(canon(VOpaque("eq", [y, 0])))
+            if z is None:
+                raise OutsideFragment("append_evaluated_output: path does not decide q_O == 0")
+            if not z:
+                out = x * (P(0) - P(Sym(f"inv({canon(P(y))})")))
+    d = dict(f)
+    if out is None:
+        ev(it, "append_gate", VStruct("Constraint", d))
+        return VOpaque("None")
+    w = c_append_witness(it, None, [out])
+    d["c"] = w
+    ev(it, "append_gate", VStruct("Constraint", d))
+    return VOpaque("Some", [w])
+
+
+u = unit("base.append_evaluated_output", CB, "Composer::append_evaluated_output", [SELF, ("s", SC)], c_append_evaluated_output,
+         consts=dict(CONSTS), path_dependent=True)
+u.extra_contracts = AEO
